@@ -700,6 +700,72 @@ def fromDict : Kind → Val → Except Err Val
   | .model => modelFromDict
   | .result => resultFromDict noRecompute
 
+/-! ### how `*_from_dict` reads the fields of the stored dictionary (as coded)
+
+Every `*_from_dict` picks the fields out of the dictionary one by one: `d['k']` (required),
+`'k' in d.keys()` / `d.get('k')` (optional, `None` when absent).  A field read through a *truth
+value* (`d.get('k') or default`, `if d['k']: …`) would replace a stored `0`, `0.0`, `''`, `[]`,
+`False`, 0-d `array(0)` by the default.  The generated leaves `fromDict{Result,Rdms,Dataset,Model}
+field present truthy` say, per field, what the source does: `1` the stored value is used, `0` `None`,
+`2` another value, `3` `KeyError`.  `fromDictC` reads the fields that way and then proceeds like
+`fromDict`; `Lemmas/C16Coded` proves the two equal from the table of the leaves. -/
+
+/-- Python truth value of a stored value (`bool(v)`): `None`, `''`, `0`, `0.0`, `-0.0`, `False`, 0-d
+    `array(0)`, empty list / tuple / dict / array are false; NaN, every non-empty string, every
+    non-empty list are true (an array with more than one element has no truth value: taken as true) -/
+def pyTruthy : Val → Bool
+  | .none => false
+  | .str s => s != ""
+  | .tens _ [] [.num _ (.fin q)] => q != 0
+  | .tens _ [] [.num _ .nzero] => false
+  | .tens _ [] [.str s] => s != ""
+  | .tens _ _ [] => false
+  | .tens _ _ _ => true
+  | .dnil => false
+  | .dcons k v r => !(k == listKey && v == natVal 0 && r == .dnil)    -- `[]` of the list form
+
+/-- the fields `*_from_dict` reads, in the order of the generated leaves -/
+def fieldNames : Kind → List String
+  | .result => ["evaluations", "dof", "variances", "noise_ceiling", "method", "cv_method", "n_rdm",
+                "n_pattern", "models", "model_var", "diff_var", "noise_ceil_var"]
+  | .rdms => ["dissimilarities", "descriptors", "rdm_descriptors", "pattern_descriptors",
+              "dissimilarity_measure"]
+  | .dataset => ["type", "measurements", "descriptors", "obs_descriptors", "channel_descriptors",
+                 "time_descriptors"]
+  | .model => ["name", "type"]      -- (`rdm` is read by truth value on purpose: `modelFromDict`)
+
+/-- the generated reading rule of field number `i` of kind `k` -/
+def fieldRule : Kind → Nat → Nat → Nat → Nat
+  | .result, i => Rsa.Gen.C16.fromDictResult i
+  | .rdms, i => Rsa.Gen.C16.fromDictRdms i
+  | .dataset, i => Rsa.Gen.C16.fromDictDataset i
+  | .model, i => Rsa.Gen.C16.fromDictModel (i + 1)
+
+/-- one field read as coded: the dictionary as the rest of `*_from_dict` sees it -/
+def readField (rule : Nat → Nat → Nat) (d : Val) (k : String) : Except Err Val :=
+  match d.get? k with
+  | some v =>
+      match rule 1 (b2n (pyTruthy v)) with
+      | 1 => .ok d                       -- the stored value
+      | 0 => .ok (d.set k .none)         -- left out
+      | _ => .error .unspecified         -- replaced by a default: no longer the stored object
+  | Option.none =>
+      match rule 0 0 with
+      | 0 => .ok d                       -- optional: `None` (the specification's reading)
+      | 3 => .ok d                       -- required: the KeyError is the specification's
+      | _ => .error .unspecified
+
+def readFields (rule : Nat → Nat → Nat → Nat) : List String → Nat → Val → Except Err Val
+  | [], _, d => .ok d
+  | k :: ks, i, d => do
+      let d' ← readField (rule i) d k
+      readFields rule ks (i + 1) d'
+
+/-- `*_from_dict` with the field accesses as coded (generated leaves) -/
+def fromDictC (k : Kind) (d : Val) : Except Err Val := do
+  let d' ← readFields (fieldRule k) (fieldNames k) 0 d
+  fromDict k d'
+
 /-! ### the file system -/
 
 inductive FType where
